@@ -5,6 +5,11 @@ From Verif Require Import Base.Prelude Model.C07_s8b Model.C07_int Model.C07_flo
 Local Open Scope N_scope.
 
 Definition lN_eqb := list_eqb N.eqb.
+
+(** run-length expansion used by the driver to write long byte strings compactly:
+    [rle [(3, 97); (2, 0)]] = [97; 97; 97; 0; 0] *)
+Definition rle (segs : list (N * N)) : list N :=
+  flat_map (fun p => repeat (snd p) (N.to_nat (fst p))) segs.
 Definition olN_eqb := option_eqb lN_eqb.
 
 Inductive case :=
